@@ -69,6 +69,9 @@ func newWorld(o chain.GenesisOptions) (*world, error) {
 	if err := doc.SanityCheck(); err != nil {
 		return nil, fmt.Errorf("genesis sanity check: %w", err)
 	}
+	if o.Upgrader {
+		chain.EnableUpgrader(doc)
+	}
 	return &world{keys: k, doc: doc, opts: o}, nil
 }
 
